@@ -115,6 +115,7 @@ pub fn site_name(s: u32) -> &'static str {
         3 => "get:computed",
         4 => "get:before-pop",
         5 => "guard-mutex:held",
+        6 => "mutex:before-lock",
         10 => "cache:enter(before lock)",
         11 => "cache:computed(before re-lock)",
         12 => "cache:wait",
